@@ -18,6 +18,10 @@ def setup():
             sany(f)
             log("[sany] ok", f)
     build_harness()
+    # the repository's integration tests against the recording stand-in (used by every client check)
+    from common import HARNESS, sh
+    sh("cargo test --offline -p rustun-verif-repotests --no-run", cwd=HARNESS, env={"CARGO_NET_OFFLINE": "true"}, timeout=3000)
+    log("[build] repository tests against the stand-in")
     return 0
 
 
